@@ -7,7 +7,8 @@ from .. import core
 
 OBJS = {
     'radial':      dict(arrays=['profile', 'profile_error', 'data_profile'], zero=[]),
-    'cog':         dict(arrays=['profile', 'profile_error'], zero=[]),
+    # ee / ree: the encircled-energy interpolators evaluated at the sampled radii (pseudo-arrays: whatever they keep must follow the scale)
+    'cog':         dict(arrays=['profile', 'profile_error', 'ee', 'ree'], zero=[]),
     'cog_zerosum': dict(arrays=['profile', 'profile_error'], zero=['sum']),
 }
 
@@ -33,6 +34,15 @@ def make(kind):
     raise core.Machinery(kind)
 
 
+def getarr(obj, a, cur_profile=None):
+    if a == 'ee':
+        return obj.calc_ee_at_radius(np.asarray(obj.radius, dtype=float))
+    if a == 'ree':
+        # the inverse interpolator, asked for the current profile values, returns the sampled radii
+        return obj.calc_radius_at_ee(np.asarray(obj.profile if cur_profile is None else cur_profile, dtype=float))
+    return getattr(obj, a)
+
+
 def nansafe(f, a):
     a = np.asarray(a, dtype=float)
     return f(a[np.isfinite(a)]) if np.isfinite(a).any() else 0.0
@@ -42,7 +52,7 @@ def replay(args):
     kind, hist = args
     warnings.simplefilter('ignore')
     arrays = OBJS[kind]['arrays']
-    raw = {a: np.array(getattr(make(kind), a), dtype=float) for a in arrays}
+    raw = {a: np.array(getarr(make(kind), a), dtype=float) for a in arrays}
     obj = make(kind)
     out = []
     path = []
@@ -52,7 +62,7 @@ def replay(args):
         sig = {'obj': kind, 'op': op, 'arg': arg, 'after': path[-2] if len(path) > 1 else None}
         try:
             if op == 'read':
-                getattr(obj, arg)
+                getarr(obj, arg)
             elif op == 'normalize':
                 obj.normalize(method=arg)
             else:
@@ -68,11 +78,11 @@ def replay(args):
         probe = copy.deepcopy(obj)
         for a in arrays:
             try:
-                got = np.array(getattr(probe, a), dtype=float)
+                got = np.array(getarr(probe, a), dtype=float)
             except Exception as e:  # noqa
                 out.append(('raises_after_history', dict(sig, array=a), {'exc': repr(e), 'path': path}))
                 continue
-            exp = raw[a] / total
+            exp = raw[a] / total if a != 'ree' else raw[a]
             if got.shape != exp.shape or not np.allclose(got, exp, rtol=1e-10, atol=1e-13, equal_nan=True):
                 cached = step['scale'][a] != ['NotCached']
                 out.append(('array_at_current_scale' if op != 'unnormalize' else 'unnormalize_restores_raw',
